@@ -261,6 +261,87 @@ def r23_5(ctx, rep):
                " — an out-of-range slice such as x[2:4] on Real x[3] is then silently mapped to x[2:3] instead of being rejected")
 
 
+@SPEC.rule(
+    "R23.6",
+    "the surplus-subscript test is made for every name part: in get_indexed_symbol every path from the head of the loop over "
+    "(subscript list, shape) to the pairing `zip(<subscripts>, <shape>)` passes the test `len(<subscripts>) > len(<shape>)`, whose "
+    "true side raises — zip() stops at the shorter operand, so an un-tested `x[1,2]` on a vector silently means x[1]",
+)
+def r23_6(ctx, rep):
+    R = "R23.6"
+    fn = ctx.func(GEN, "Generator.get_indexed_symbol", R)
+    site = GEN + ":Generator.get_indexed_symbol"
+    cfg = CFG(fn, R)
+    outer = [x for x in cfg.nodes if x.kind == "iter" and isinstance(x.ast.iter, ast.Call) and call_name(x.ast.iter) == "enumerate" and isinstance(x.ast.target, ast.Tuple)
+             and isinstance(x.ast.target.elts[1], ast.Tuple) and len(x.ast.target.elts[1].elts) == 2]
+    if not outer:
+        raise MechanismMissing(R, "loop over (subscript list, shape) not found")
+    out = outer[0]
+    a, b = [norm(e) for e in out.ast.target.elts[1].elts]
+    inner = [x for x in cfg.nodes if x.kind == "iter" and isinstance(x.ast.iter, ast.Call) and call_name(x.ast.iter) == "zip" and [norm(z) for z in x.ast.iter.args] == [a, b]]
+    if not inner:
+        raise MechanismMissing(R, "pairing zip(%s, %s) not found" % (a, b))
+
+    def surplus(t):
+        t = norm(t).replace(" ", "")
+        return t in ("len(%s)>len(%s)" % (a, b), "len(%s)<len(%s)" % (b, a), "not(len(%s)<=len(%s))" % (a, b), "not(len(%s)>=len(%s))" % (b, a))
+
+    tests = [x for x in cfg.nodes if x.kind == "test" and surplus(x.ast)]
+    if not tests:
+        rep.ob(R, site, "surplus subscripts tested", False, "no test `len(%s) > len(%s)` left in get_indexed_symbol" % (a, b))
+        return
+    body_entry = [s_ for s_ in cfg.succ[out.id] if cfg.nodes[s_].kind == "assume" and cfg.nodes[s_].taken]
+    w = cfg.path(body_entry[0], inner[0].id, avoid={t.id for t in tests}) if body_entry else None
+    rep.ob(R, site, "surplus subscripts tested for every name part", w is None,
+           "the subscripts of a name part can be paired with its shape without the surplus test: zip() drops the extra subscript and `x[1,2]` on a "
+           "vector is accepted as x[1]", path=cfg.describe(w) if w else "")
+    for t in tests:
+        fa = [cfg.nodes[s_] for s_ in cfg.succ[t.id] if cfg.nodes[s_].kind == "assume" and not cfg.nodes[s_].taken]
+        rep.ob(R, site, "surplus subscripts raise", bool(fa) and _true_branch_raises(cfg, fa[0]), "the true side of `%s` does not raise" % norm(t.ast))
+
+
+@SPEC.rule(
+    "R23.7",
+    "a for-equation reads the elements its subscripts name: every value Generator.exitForEquation passes to the mapped loop body "
+    "for an indexed symbol is the gather `<symbol>[<indices>]` (possibly transposed) — CasADi's own bound check on that gather is the "
+    "only place a loop subscript beyond the dimension is rejected, and a shortcut that maps over the whole symbol instead "
+    "(`as many subscripts as elements`) turns x[1], x[3], x[5] on a 3-vector into x[1], x[2], x[3]",
+)
+def r23_7(ctx, rep):
+    R = "R23.7"
+    fn = ctx.func(GEN, "Generator.exitForEquation", R)
+    site = GEN + ":Generator.exitForEquation"
+    # the list handed to the mapped call together with f.values, and the local appended to it
+    mapped = {x.id for c in calls(fn) if isinstance(c.func, ast.Attribute) and c.func.attr == "call" for a_ in c.args for x in ast.walk(a_) if isinstance(x, ast.Name)}
+    apps = [c for c in calls(fn) if isinstance(c.func, ast.Attribute) and c.func.attr == "append" and isinstance(c.func.value, ast.Name)
+            and c.func.value.id in mapped and c.args and isinstance(c.args[0], ast.Name)]
+    if not apps:
+        raise MechanismMissing(R, "no `<indexed symbols>.append(<local>)` found in exitForEquation")
+    n = 0
+    for ap in apps:
+        v = ap.args[0].id
+        loop = getattr(ap, "_parent", None)
+        while loop is not None and not isinstance(loop, ast.For):
+            loop = getattr(loop, "_parent", None)
+        if loop is None:
+            continue
+        defs = [st for st in ast.walk(loop) if isinstance(st, ast.Assign) and any(is_name(t, v) for t in st.targets)]
+        for st in defs:
+            n += 1
+            val = st.value
+            wraps_self = isinstance(val, ast.Call) and any(is_name(a_, v) for a_ in val.args)
+            # the subscript is a local that holds the loop's recorded subscripts (<indexed symbol>.indices) or the whole-range slice
+            idx_locals = {st2.targets[0].id for st2 in ast.walk(loop) if isinstance(st2, ast.Assign) and isinstance(st2.targets[0], ast.Name)
+                          and isinstance(st2.value, ast.Attribute) and st2.value.attr == "indices"}
+            gather = isinstance(val, ast.Subscript) and isinstance(val.value, ast.Name) and (
+                (isinstance(val.slice, ast.Name) and val.slice.id in idx_locals) or (isinstance(val.slice, ast.Attribute) and val.slice.attr == "indices"))
+            rep.ob(R, site, "`%s` gathers by the loop's subscripts" % norm(st)[:60], gather or wraps_self,
+                   "the value mapped over is not `<symbol>[<indices>]`: the subscripts the loop computed are not used to select the elements (and "
+                   "are not checked against the dimension by the gather)")
+    if n < 2:
+        raise MechanismMissing(R, "expected the gather and the transpose definition of the mapped value, found %d definition(s)" % n)
+
+
 # -- seeded variants ---------------------------------------------------------
 from ._mut import replace_in_func  # noqa: E402
 
@@ -346,3 +427,36 @@ def _m_clamp(mod):
         return False
 
     return mod if replace_in_func(mod, "Generator.get_indexed_symbol", edit) else None
+
+
+@SPEC.mutant("surplus-subscript test only for nested names", GEN, "R23.6", "for every name part")
+def _m_surplus_nested(mod):
+    def edit(fn):
+        for n in ast.walk(fn):
+            for f in ("body", "orelse"):
+                lst = getattr(n, f, None)
+                if isinstance(lst, list):
+                    for i, st in enumerate(lst):
+                        if isinstance(st, ast.If) and norm(st.test).startswith("len(index_array) > len(shape)"):
+                            lst[i] = ast.If(test=ast.parse("len(tree.indices) != 1", mode="eval").body, body=[st], orelse=[])
+                            return True
+        return False
+
+    return mod if replace_in_func(mod, "Generator.get_indexed_symbol", edit) else None
+
+
+@SPEC.mutant("whole-vector loops mapped over the symbol itself", GEN, "R23.7", "gathers by")
+def _m_no_gather(mod):
+    def edit(fn):
+        for n in ast.walk(fn):
+            for f in ("body", "orelse"):
+                lst = getattr(n, f, None)
+                if isinstance(lst, list):
+                    for i, st in enumerate(lst):
+                        if isinstance(st, ast.Assign) and norm(st) == "indexed_symbol = orig_symbol[indices]":
+                            lst[i] = ast.If(test=ast.parse("isinstance(indices, np.ndarray) and indices.size == orig_symbol.size1()", mode="eval").body,
+                                            body=ast.parse("indexed_symbol = orig_symbol").body, orelse=[st])
+                            return True
+        return False
+
+    return mod if replace_in_func(mod, "Generator.exitForEquation", edit) else None
